@@ -518,6 +518,14 @@ def check_scenario(sc, obs, add):
             for p in ('C03', 'C04', 'C05', 'C07', 'C08', 'C09', 'C12', 'C19'):
                 add(p, 'helper_thread_crashed', {'thread': role, 'error': err[:200]})
             break
+    # insights stay readable after the with-block: what the pool reports then is what it reported after its last operation
+    if sc['pool'].get('enable_insights') and obs.get('ops') and 'insights_after_exit' in obs and obs.get('exit_outcome') == 'ok':
+        last = next((oo for oo in reversed(obs['ops']) if isinstance(oo.get('insights'), dict) and 'n_completed_tasks' in oo['insights']), None)
+        after = obs['insights_after_exit']
+        if last is not None and obs['ops'][-1] is last and last.get('outcome') == 'ok':
+            if not isinstance(after, dict) or after.get('n_completed_tasks') != last['insights'].get('n_completed_tasks'):
+                add('C18', 'insights_readable_after_exit', {'inside_the_with_block': last['insights'].get('n_completed_tasks'),
+                                                             'after_it': (after or {}).get('n_completed_tasks') if isinstance(after, dict) else str(after)[:100]})
     if obs.get('procs_alive'):
         add('C05', 'no_worker_process_alive_after_exit', {'alive': obs['procs_alive'][:8]})
     if obs.get('alive_at_exit'):
